@@ -1,3 +1,4 @@
 pub mod slotmap;
 pub mod slot;
 pub mod shape;
+pub mod parse;
